@@ -462,9 +462,9 @@ func worker(args []string) int {
 			budget = 25 * time.Minute
 		}
 		if c.Proto == 4 {
-			lease.Crash(r, "C01", budget)
+			lease.Crash(r, "C01", budget, false)
 		} else {
-			pd.Crash(r, "C01", budget)
+			pd.Crash(r, "C01", budget, false)
 		}
 		return reg.WorkerExit(r)
 	}
